@@ -959,4 +959,313 @@ theorem utf16_canonical (be : Bool) (xs : List Nat) (n : Nat) (r : Int) (uc : Op
           simp; omega
   · simp at h
 
+/-! ### `parse` / `unparse` function pointers -/
+
+theorem parse_progress (fe : Enc) (xs : List Nat) (n : Nat) (r : Int) (uc : Option Nat)
+    (h : parse fe xs n = .ret r uc) (hr : r ≠ 0) : 1 ≤ r.natAbs ∧ r.natAbs ≤ n := by
+  cases fe
+  · exact cesu8_progress xs n r uc h hr
+  · exact utf16_progress true xs n r uc h hr
+  · exact utf16_progress false xs n r uc h hr
+
+theorem parse_no_oob (fe : Enc) (xs : List Nat) (n : Nat) (hn : n ≤ xs.length) : parse fe xs n ≠ .oob := by
+  cases fe
+  · exact cesu8_no_oob xs n hn
+  · exact utf16_no_oob true xs n hn
+  · exact utf16_no_oob false xs n hn
+
+theorem parse_neg (fe : Enc) (xs : List Nat) (n : Nat) (r : Int) (uc : Option Nat)
+    (h : parse fe xs n = .ret r uc) (hr : r < 0) : uc = some unicodeRChar := by
+  cases fe
+  · exact cesu8_neg xs n r uc h hr
+  · exact utf16_neg true xs n r uc h hr
+  · exact utf16_neg false xs n r uc h hr
+
+/-- When `unparse` stores anything, it stores what it would store with room for 4 bytes, and
+not more than the room it was given. -/
+theorem unparse_room (e : Enc) (r uc : Nat) (h : unparse e r uc ≠ []) :
+    unparse e r uc = unparse e 4 uc ∧ (unparse e r uc).length ≤ r := by
+  cases e
+  · simp only [unparse, unicodeToUtf8] at h ⊢
+    (repeat' split at h) <;> simp at h <;> (repeat' split) <;> simp_all <;> omega
+  · simp only [unparse, unicodeToUtf16] at h ⊢
+    (repeat' split at h) <;> simp at h <;> (repeat' split) <;> simp_all [enc16_len] <;> omega
+  · simp only [unparse, unicodeToUtf16] at h ⊢
+    (repeat' split at h) <;> simp at h <;> (repeat' split) <;> simp_all [enc16_len] <;> omega
+
+theorem unparse_len_le (e : Enc) (r uc : Nat) : (unparse e r uc).length ≤ 4 := by
+  cases e
+  · simp only [unparse, unicodeToUtf8]; (repeat' split) <;> simp
+  · simp only [unparse, unicodeToUtf16]; (repeat' split) <;> simp [enc16_len]
+  · simp only [unparse, unicodeToUtf16]; (repeat' split) <;> simp [enc16_len]
+
+theorem unparse4_ne_nil (e : Enc) (uc : Nat) : unparse e 4 uc ≠ [] := by
+  intro h; have := unparse_nil_lt e 4 uc h; omega
+
+/-- The buffer invariant of `archive_string_append_unicode`: `p ≤ endp`. -/
+def BufInv (ts : Nat) (as : AStr) : Prop := as.alloc = true ∧ as.data.length + ts ≤ as.cap
+
+theorem ensure_alloc (as : AStr) (s : Nat) : (ensure as s).alloc = true := by
+  unfold ensure; split
+  · rename_i h; exact h.1
+  · rfl
+
+theorem ensure_inv (ts : Nat) (as : AStr) (s : Nat) (h : as.data.length + ts ≤ s) : BufInv ts (ensure as s) := by
+  refine ⟨ensure_alloc as s, ?_⟩
+  rw [ensure_data]; have := ensure_cap_ge as s; omega
+
+/-- The grow-and-store loop: under the invariant it stores exactly `unparse e 4 uc` behind the
+existing content, every byte below `buffer_length`, and re-establishes the invariant. -/
+theorem unparseGrow_spec (e : Enc) (lenTm uc : Nat) (as : AStr) (hinv : BufInv e.ts as) :
+    ∃ cap', unparseGrow e lenTm uc as = .ok 0 { alloc := true, cap := cap', data := as.data ++ unparse e 4 uc } ∧
+      as.data.length + (unparse e 4 uc).length + e.ts ≤ cap' := by
+  fun_induction unparseGrow e lenTm uc as with
+  | case1 as bs hb hw ih =>
+    have h2 := ensure_cap_ge as (as.cap + lenTm + e.ts)
+    have := ih (ensure_inv e.ts as _ (by have := hinv.2; omega))
+    rw [ensure_data] at this
+    exact this
+  | case2 as bs hb hw => exact absurd hinv.2 hw
+  | case3 as bs hb hfit =>
+    have hr := unparse_room e _ uc hb
+    have hroom : roomFor as e.ts = as.cap - e.ts - as.data.length := by simp [roomFor, hinv.2]
+    have hbs : bs = unparse e (roomFor as e.ts) uc := rfl
+    refine ⟨as.cap, ?_, ?_⟩
+    · rw [hbs, hr.1]
+      have := hinv.1
+      cases as; simp_all
+    · have hl := hr.2
+      rw [← hr.1]; have := hinv.2; omega
+  | case4 as bs hb hfit =>
+    exfalso
+    have hl := (unparse_room e _ uc hb).2
+    have hroom : roomFor as e.ts = as.cap - e.ts - as.data.length := by simp [roomFor, hinv.2]
+    have hbs : bs = unparse e (roomFor as e.ts) uc := rfl
+    apply hfit; rw [hbs]; have := hinv.2; omega
+
+/-! ### `archive_string_append_unicode` -/
+
+/-- `archive_string_append_unicode`'s loop computes `transcode` and keeps every store inside
+the buffer: from any state satisfying the invariant it ends in `.ok` with the transcoded bytes
+appended, room for the terminator left. -/
+theorem appendLoop_spec (fe te : Enc) (tm : Nat) :
+    ∀ (len : Nat) (xs : List Nat) (as : AStr) (ret : Int) (acc : List Nat),
+      len ≤ xs.length → BufInv te.ts as →
+      ∃ r out cap', transcode fe te xs len acc ret = .ok r (acc ++ out) ∧
+        appendLoop fe te tm xs len as ret = .ok r { alloc := true, cap := cap', data := as.data ++ out } ∧
+        as.data.length + out.length + te.ts ≤ cap' := by
+  intro len
+  induction len using Nat.strongRecOn with
+  | ind len ih =>
+    intro xs as ret acc hlen hinv
+    rw [transcode, appendLoop]
+    cases hp : parse fe xs len with
+    | oob => exact absurd hp (parse_no_oob fe xs len hlen)
+    | ret n uc =>
+      simp only []
+      by_cases hn : n = 0
+      · simp only [hn, if_true]
+        have h1 : ¬ as.cap ≤ as.data.length := by have := hinv.2; have := te.ts_pos; omega
+        have h2 : ¬ (te.ts = 2 ∧ as.cap ≤ as.data.length + 1) := by have := hinv.2; omega
+        simp only [h1, h2, if_false]
+        refine ⟨ret, [], as.cap, by simp, ?_, by simpa using hinv.2⟩
+        have := hinv.1
+        cases as; simp_all
+      · have hk := parse_progress fe xs len n uc hp hn
+        have hk' : n.natAbs ≤ len ∧ 0 < n.natAbs := ⟨hk.2, by omega⟩
+        simp only [hn, if_false, hk', and_self, dite_true]
+        obtain ⟨cap1, hg, hfit⟩ := unparseGrow_spec te ((len - n.natAbs) * tm) (uc.getD 0) as hinv
+        rw [hg]
+        simp only []
+        have hinv' : BufInv te.ts { alloc := true, cap := cap1, data := as.data ++ unparse te 4 (uc.getD 0) } := by
+          refine ⟨rfl, ?_⟩; simp only [List.length_append]; omega
+        obtain ⟨r, out, cap', ht, ha, hc⟩ := ih (len - n.natAbs) (by omega) (xs.drop n.natAbs) _
+          (if n < 0 then -1 else ret) (acc ++ unparse te 4 (uc.getD 0)) (by simp; omega) hinv'
+        refine ⟨r, unparse te 4 (uc.getD 0) ++ out, cap', ?_, ?_, ?_⟩
+        · rw [ht]; simp
+        · rw [ha]; simp
+        · simp only [List.length_append] at hc ⊢; omega
+
+theorem appendUnicode_spec (flag : Nat) (as : AStr) (xs : List Nat) (len : Nat) (hlen : len ≤ xs.length) :
+    ∃ r out cap', transcode (fromEnc flag) (toEnc flag) xs len [] 0 = .ok r out ∧
+      appendUnicode flag as xs len = .ok r { alloc := true, cap := cap', data := as.data ++ out } ∧
+      as.data.length + out.length + (toEnc flag).ts ≤ cap' := by
+  unfold appendUnicode
+  have hinv : BufInv (toEnc flag).ts (ensure as (as.data.length + len * tmOf flag + (toEnc flag).ts)) :=
+    ensure_inv _ as _ (by omega)
+  obtain ⟨r, out, cap', ht, ha, hc⟩ := appendLoop_spec (fromEnc flag) (toEnc flag) (tmOf flag) len xs _ 0 [] hlen hinv
+  rw [ensure_data] at ha hc
+  exact ⟨r, out, cap', by simpa using ht, ha, hc⟩
+
+/-! ### sequences of scalar values -/
+
+/-- The byte string `unparse e` produces for a sequence of code points. -/
+def encSeq (e : Enc) (cs : List Nat) : List Nat := cs.flatMap (unparse e 4)
+
+/-- What a source encoding can carry: any scalar value, except that U+0000 ends a UTF-8 string. -/
+def Carries (e : Enc) (c : Nat) : Prop := IsScalar c ∧ (e = .utf8 → 0 < c)
+
+theorem parse_encode (fe : Enc) (c : Nat) (hc : Carries fe c) (rest : List Nat) (n : Nat)
+    (hn : (unparse fe 4 c).length ≤ n) :
+    parse fe (unparse fe 4 c ++ rest) n = .ret (unparse fe 4 c).length (some c) := by
+  cases fe
+  · exact cesu8_encode c (hc.2 rfl) hc.1 rest n hn
+  · exact utf16_encode true c hc.1 rest n hn
+  · exact utf16_encode false c hc.1 rest n hn
+
+theorem parse_end (fe : Enc) (xs : List Nat) : parse fe xs 0 = .ret 0 (if fe = .utf8 then some 0 else none) := by
+  cases fe <;> simp [parse, cesu8ToUnicode, utf8Raw, utf16ToUnicode]
+
+/-- Transcoding the encoding of a sequence of scalar values yields the encoding of the same
+sequence in the target encoding, and reports no failure. -/
+theorem transcode_encSeq (fe te : Enc) (cs : List Nat) (hcs : ∀ c ∈ cs, Carries fe c)
+    (acc : List Nat) (ret : Int) :
+    transcode fe te (encSeq fe cs) (encSeq fe cs).length acc ret = .ok ret (acc ++ encSeq te cs) := by
+  induction cs generalizing acc with
+  | nil =>
+    rw [transcode]
+    simp [encSeq, parse_end]
+  | cons c cs ih =>
+    have hc := hcs c (by simp)
+    have hlen : (encSeq fe (c :: cs)).length = (unparse fe 4 c).length + (encSeq fe cs).length := by
+      simp [encSeq]
+    have hpos : 0 < (unparse fe 4 c).length := by
+      have := unparse4_ne_nil fe c
+      cases h : unparse fe 4 c with
+      | nil => exact absurd h this
+      | cons _ _ => simp
+    rw [transcode]
+    have hp := parse_encode fe c hc (encSeq fe cs) (encSeq fe (c :: cs)).length (by omega)
+    have hx : encSeq fe (c :: cs) = unparse fe 4 c ++ encSeq fe cs := by simp [encSeq]
+    rw [hx] at hp ⊢
+    rw [hp]
+    have hne : ((unparse fe 4 c).length : Int) ≠ 0 := by omega
+    have hk : (((unparse fe 4 c).length : Int).natAbs ≤ (unparse fe 4 c ++ encSeq fe cs).length ∧
+        0 < ((unparse fe 4 c).length : Int).natAbs) := by
+      simp only [Int.natAbs_natCast, List.length_append]; omega
+    have hnn : ¬ ((unparse fe 4 c).length : Int) < 0 := by omega
+    simp only []
+    rw [if_neg hne, dif_pos hk]
+    simp only [hnn, if_false, Int.natAbs_natCast, Option.getD_some]
+    have hd : (unparse fe 4 c ++ encSeq fe cs).drop (unparse fe 4 c).length = encSeq fe cs := by simp
+    have hl : (unparse fe 4 c ++ encSeq fe cs).length - (unparse fe 4 c).length = (encSeq fe cs).length := by simp
+    rw [hd, hl, ih (fun c' h' => hcs c' (by simp [h']))]
+    simp [encSeq]
+
+/-! ### `strncat_from_utf8_to_utf8` -/
+
+/-- Well-formed UTF-8 without NUL: the encoding of a sequence of non-zero scalar values. -/
+def WellFormed8 (bs : List Nat) : Prop := ∃ cs, (∀ c ∈ cs, Carries .utf8 c) ∧ bs = encSeq .utf8 cs
+
+theorem wellFormed8_nil : WellFormed8 [] := ⟨[], by simp, rfl⟩
+
+theorem wellFormed8_snoc {bs : List Nat} {c : Nat} (h : WellFormed8 bs) (hc : Carries .utf8 c) :
+    WellFormed8 (bs ++ unicodeToUtf8 4 c) := by
+  obtain ⟨cs, hcs, rfl⟩ := h
+  refine ⟨cs ++ [c], ?_, by simp [encSeq, unparse]⟩
+  intro c' hc'
+  simp at hc'
+  rcases hc' with h | h
+  · exact hcs c' h
+  · exact h ▸ hc
+
+theorem carries_rchar : Carries .utf8 unicodeRChar :=
+  ⟨by rw [isScalar_iff]; simp [unicodeRChar], fun _ => by simp [unicodeRChar]⟩
+
+theorem utf8ToUnicode_neg (xs : List Nat) (n : Nat) (r : Int) (uc : Option Nat)
+    (h : utf8ToUnicode xs n = .ret r uc) (hr : r < 0) :
+    uc = some unicodeRChar ∨ (r = -3 ∧ isSurrogate (uc.getD 0) = true) := by
+  unfold utf8ToUnicode at h
+  cases hraw : utf8Raw xs n with
+  | oob => simp [hraw] at h
+  | ret r1 uc1 =>
+    simp only [hraw] at h
+    split at h
+    · rename_i hs
+      simp only [Dec.ret.injEq] at h
+      exact .inr ⟨h.1.symm, h.2 ▸ hs.2⟩
+    · simp only [Dec.ret.injEq] at h
+      exact .inl (h.2 ▸ utf8Raw_neg xs n r1 uc1 hraw (by omega))
+
+/-- The UTF-8 → UTF-8 copy always terminates with a result, reads only inside the block, and
+what it appends is well-formed UTF-8; its return value is the incoming one or -1. -/
+theorem utf8ToUtf8Loop_spec :
+    ∀ (len : Nat) (xs out : List Nat) (ret : Int), len ≤ xs.length →
+      ∃ r app, utf8ToUtf8Loop xs len out ret = .ok r (out ++ app) ∧ WellFormed8 app ∧ (r = ret ∨ r = -1) := by
+  intro len
+  induction len using Nat.strongRecOn with
+  | ind len ih =>
+    intro xs out ret hlen
+    rw [utf8ToUtf8Loop]
+    cases hp : utf8ToUnicode xs len with
+    | oob => exact absurd hp (utf8ToUnicode_no_oob xs len hlen)
+    | ret r uc =>
+      simp only []
+      by_cases hr0 : r = 0
+      · simp only [hr0, if_true]
+        exact ⟨ret, [], by simp, wellFormed8_nil, .inl rfl⟩
+      rw [if_neg hr0]
+      have hprog := utf8ToUnicode_progress xs len r uc hp hr0
+      by_cases hpos : 0 < r
+      · rw [if_pos hpos]
+        have hk : r.toNat ≤ len ∧ 0 < r.toNat := by omega
+        simp only [hk, and_self, dite_true]
+        obtain ⟨c, hc, hcp, hsc, htake, hl, hn⟩ := utf8ToUnicode_canonical xs len r uc hp hpos
+        obtain ⟨r', app, he, hw, hr'⟩ := ih (len - r.toNat) (by omega) (xs.drop r.toNat) (out ++ xs.take r.toNat) ret
+          (by simp; omega)
+        refine ⟨r', xs.take r.toNat ++ app, by rw [he]; simp, ?_, hr'⟩
+        obtain ⟨cs, hcs, rfl⟩ := hw
+        refine ⟨c :: cs, ?_, by simp [encSeq, unparse, htake]⟩
+        intro c' hc'
+        simp at hc'
+        rcases hc' with h | h
+        · exact h ▸ ⟨hsc, fun _ => hcp⟩
+        · exact hcs c' h
+      · rw [if_neg hpos]
+        have hneg : r < 0 := by omega
+        -- the code point that is appended, and how many bytes are consumed
+        have key : ∃ n uc', (if r = -3 ∧ isSurrogate (uc.getD 0) = true then cesu8ToUnicode xs len else Dec.ret r uc)
+              = .ret n uc' ∧ n ≠ 0 ∧ n.natAbs ≤ len ∧ Carries .utf8 (uc'.getD 0) := by
+          by_cases hsur : r = -3 ∧ isSurrogate (uc.getD 0) = true
+          · rw [if_pos hsur]
+            cases hc : cesu8ToUnicode xs len with
+            | oob => exact absurd hc (cesu8_no_oob xs len hlen)
+            | ret n uc' =>
+              have hz := cesu8_zero xs len n uc' hc
+              have hz0 := utf8ToUnicode_zero xs len r uc hp
+              have hn0 : n ≠ 0 := by
+                intro h0; exact hr0 (hz0.2 (hz.1 h0))
+              have hpr := cesu8_progress xs len n uc' hc hn0
+              refine ⟨n, uc', rfl, hn0, hpr.2, ?_⟩
+              by_cases hnp : 0 < n
+              · obtain ⟨c, hc', hcp, hsc, _⟩ := cesu8_canonical xs len n uc' hc hnp
+                subst hc'; exact ⟨hsc, fun _ => hcp⟩
+              · have := cesu8_neg xs len n uc' hc (by omega)
+                subst this; exact carries_rchar
+          · rw [if_neg hsur]
+            refine ⟨r, uc, rfl, hr0, hprog.2, ?_⟩
+            rcases utf8ToUnicode_neg xs len r uc hp hneg with h | h
+            · subst h; exact carries_rchar
+            · exact absurd h hsur
+        obtain ⟨n, uc', hkey, hn0, hnl, hcar⟩ := key
+        rw [hkey]
+        simp only []
+        have hk0 : ¬ n.natAbs = 0 := by omega
+        rw [if_neg hk0, dif_pos hnl]
+        obtain ⟨r', app, he, hw, hr'⟩ := ih (len - n.natAbs) (by omega) (xs.drop n.natAbs)
+          (out ++ unicodeToUtf8 4 (uc'.getD 0)) (if n < 0 then -1 else ret) (by simp; omega)
+        refine ⟨r', unicodeToUtf8 4 (uc'.getD 0) ++ app, by rw [he]; simp, ?_, ?_⟩
+        · obtain ⟨cs, hcs, rfl⟩ := hw
+          refine ⟨uc'.getD 0 :: cs, ?_, by simp [encSeq, unparse]⟩
+          intro c' hc'
+          simp at hc'
+          rcases hc' with h | h
+          · exact h ▸ hcar
+          · exact hcs c' h
+        · rcases hr' with h | h
+          · split at h
+            · exact .inr h
+            · exact .inl h
+          · exact .inr h
+
 end LA.Unicode
